@@ -89,7 +89,9 @@ def main():
             replay = {"engine": "c05-e2e", "service": service, "input_kind": kind, "batch": batchno}
             if service == "dhcp":
                 xid[0] += 1
-                mac = bytes([2, 0x55, 0, (batchno >> 8) & 0xFF, batchno & 0xFF, 1])
+                # two probe clients, taking turns: they hold their leases from the first batches on, so a pool drained by
+                # the many distinct (mutated) clients among the hostile inputs cannot make a healthy server look dead
+                mac = bytes([2, 0x55, 0, 0, batchno & 1, 1])
                 fr, off = dhcplib.exchange(sb.client, mac, 1, xid[0], options=[(55, bytes([1, 3, 6, 51]))], wait=3.0)
                 ok = off is not None
             elif service == "dns":
